@@ -14,6 +14,7 @@ import os
 import re
 
 import core
+import history
 from core import Rng, derive
 
 PROP = "C20"
@@ -114,6 +115,7 @@ def make_case(cid, batch, tree, outside, spelling, plan, streams="pipes"):
 def gen_cases(tier, seed):
     quick = tier == "quick"
     yield from gen_twins(tier, seed)
+    yield from history.gen_cases(PROP, "c20", tier, seed, 300 if quick else 4000)
     # 1. exhaustive: all readdir permutations of fixed small directories
     fixed = [
         [{"name": "x.mmm", "kind": "file", "content": "1"}, {"name": "x.ms", "kind": "file", "content": "2"},
@@ -301,6 +303,8 @@ def run_twins(case):
 def run_case(case):
     if case.get("batch") == "twins":
         return run_twins(case)
+    if case.get("kind") == "hist":
+        return history.run_case(case)
     # layout: <world>/root/{d/...(the tree), outside entries, targets/}
     world = core.fresh_world()
     root = os.path.join(world, "root")
@@ -429,6 +433,9 @@ def run_case(case):
 def shrink(case):
     if case.get("batch") == "twins":
         return
+    if case.get("kind") == "hist":
+        yield from history.shrink(case)
+        return
     for i in range(len(case["plan"].get("rules", []))):
         c = copy.deepcopy(case)
         del c["plan"]["rules"][i]
@@ -468,6 +475,6 @@ def known_finding(case, res):
 RULE = ("random directory trees (depth<=2, <=8 entries, names from the property's set x {file, dir, symlink to file, "
         "symlink to dir, dangling symlink}) plus bystanders outside DIR, DIR spelled ./d/./d//d/ ; plans: fault-free, "
         "benign (readdir permutation, short/EINTR stdout), hard (unlink errno/gone/kill, readdir EIO, stdout errors); all "
-        "readdir permutations of three fixed directories; every name x kind alone. distinct = distinct (multiset of "
+        "readdir permutations of three fixed directories; every name x kind alone; project histories (clean inside histories of real compiles, runs, edits and killed commands on a four-module project). distinct = distinct (multiset of "
         "(name,kind), DIR spelling, rule list); non-trivial = at least two entries and at least one eligible name")
 LEVEL = "fault_enumeration"
